@@ -380,6 +380,7 @@ const (
 	Refuse PlanKind = iota // fail with ECONNREFUSED after Delay (0 = at once)
 	Stall                  // block until the context is cancelled
 	Accept                 // connection exists at once, returned after Delay
+	Hold                   // connection exists at once, returned when Release is called (or fails when the context is cancelled first)
 )
 
 func (k PlanKind) String() string {
@@ -390,6 +391,8 @@ func (k PlanKind) String() string {
 		return "stall"
 	case Accept:
 		return "accept"
+	case Hold:
+		return "hold"
 	}
 	return "?"
 }
@@ -414,6 +417,7 @@ type DialAttempt struct {
 	CancelAt  time.Duration
 	Conn      *Conn
 	Err       string
+	release   chan struct{}
 }
 
 // SetPlans replaces the queue of plans for a remote. Each attempt consumes
@@ -454,7 +458,7 @@ func (n *Net) Dial(ctx context.Context, local, remote netip.Addr, port int) (net
 			n.plans[remote] = q[1:]
 		}
 	}
-	a := &DialAttempt{Seq: n.NextSeq(), At: n.Since(), Local: local, Remote: remote, Port: port, Plan: plan}
+	a := &DialAttempt{Seq: n.NextSeq(), At: n.Since(), Local: local, Remote: remote, Port: port, Plan: plan, release: make(chan struct{})}
 	n.dials = append(n.dials, a)
 	n.mu.Unlock()
 
@@ -493,7 +497,7 @@ func (n *Net) Dial(ctx context.Context, local, remote netip.Addr, port int) (net
 	case Stall:
 		<-ctx.Done()
 		return finish(nil, &net.OpError{Op: "dial", Net: "tcp", Err: ctx.Err()})
-	case Accept:
+	case Accept, Hold:
 		la := local
 		if !la.IsValid() {
 			if remote.Is4() {
@@ -508,6 +512,18 @@ func (n *Net) Dial(ctx context.Context, local, remote netip.Addr, port int) (net
 		n.mu.Lock()
 		a.Conn = c
 		n.mu.Unlock()
+		if plan.Kind == Hold {
+			select {
+			case <-a.release:
+			case <-ctx.Done():
+				c.mu.Lock()
+				c.localClosed = true // the dialer closes the socket it was building
+				c.closeAt = n.Since()
+				c.closeSeq = n.NextSeq()
+				c.mu.Unlock()
+				return finish(nil, &net.OpError{Op: "dial", Net: "tcp", Err: ctx.Err()})
+			}
+		}
 		if plan.Delay > 0 {
 			// the TCP handshake has completed (the remote sees the
 			// connection); the dialer returns it a little later, whatever
@@ -518,4 +534,38 @@ func (n *Net) Dial(ctx context.Context, local, remote netip.Addr, port int) (net
 		return finish(c, nil)
 	}
 	return finish(nil, errors.New("memnet: bad plan"))
+}
+
+// Release completes every pending Hold dial to the remote and returns the
+// connections handed over (the connection object exists from the moment of
+// the dial; use PendingConn to reach it earlier).
+func (n *Net) Release(remote netip.Addr) []*Conn {
+	n.mu.Lock()
+	defer n.mu.Unlock()
+	var out []*Conn
+	for _, a := range n.dials {
+		if a.Remote == remote && a.Plan.Kind == Hold && !a.Done && a.release != nil {
+			select {
+			case <-a.release:
+			default:
+				close(a.release)
+				out = append(out, a.Conn)
+			}
+		}
+	}
+	return out
+}
+
+// PendingConn returns the connection of the latest unfinished Hold dial to
+// the remote (nil if none).
+func (n *Net) PendingConn(remote netip.Addr) *Conn {
+	n.mu.Lock()
+	defer n.mu.Unlock()
+	for i := len(n.dials) - 1; i >= 0; i-- {
+		a := n.dials[i]
+		if a.Remote == remote && a.Plan.Kind == Hold && !a.Done {
+			return a.Conn
+		}
+	}
+	return nil
 }
